@@ -581,3 +581,52 @@ Theorem value_of_below_limit (r : fenv) pol fuel seen k v :
 Proof.
   intros Hm Hd Hl. unfold value_of. rewrite Hm. apply Nat.leb_gt in Hd. rewrite Hd, Hl. reflexivity.
 Qed.
+
+(* ---------- the fuel of the model's expander is not part of its meaning ---------- *)
+Definition le_xrec (r1 r2 : list str -> str -> res str) : Prop :=
+  forall seen v, r1 seen v <> Fuel -> r2 seen v = r1 seen v.
+
+Lemma subst_mono (r : fenv) pol rec1 rec2 seen : le_xrec rec1 rec2 -> forall segs,
+  subst r pol rec1 seen segs <> Fuel -> subst r pol rec2 seen segs = subst r pol rec1 seen segs.
+Proof.
+  intros Hle. induction segs as [|[l|k] t IH]; intros Hn; cbn [subst] in *; [reflexivity| |].
+  - assert (Ht : subst r pol rec1 seen t <> Fuel) by (intros E; rewrite E in Hn; apply Hn; reflexivity).
+    rewrite (IH Ht). reflexivity.
+  - destruct (mem_str k seen); [reflexivity|].
+    destruct (Nat.leb max_depth (length seen)); [reflexivity|].
+    destruct (alookup k r) as [v|].
+    + assert (Hv : rec1 (k :: seen) v <> Fuel) by (intros E; rewrite E in Hn; apply Hn; reflexivity).
+      rewrite (Hle _ _ Hv). destruct (rec1 (k :: seen) v); try reflexivity.
+      assert (Ht : subst r pol rec1 seen t <> Fuel) by (intros E; rewrite E in Hn; apply Hn; reflexivity).
+      rewrite (IH Ht). reflexivity.
+    + destruct (missing_value pol k); try reflexivity.
+      assert (Ht : subst r pol rec1 seen t <> Fuel) by (intros E; rewrite E in Hn; apply Hn; reflexivity).
+      rewrite (IH Ht). reflexivity.
+Qed.
+
+Theorem expand_rec_step (r : fenv) pol : forall fuel, le_xrec (expand_rec r pol fuel) (expand_rec r pol (S fuel)).
+Proof.
+  induction fuel as [|fuel IH]; intros seen f Hn; [exfalso; apply Hn; reflexivity|].
+  rewrite (expand_rec_S r pol (S fuel)). rewrite expand_rec_S in Hn |- *.
+  destruct (scan (S (length f)) 0 None f [] false) as [[segs esc]| | |]; try reflexivity.
+  assert (Hs : subst r pol (expand_rec r pol fuel) seen segs <> Fuel).
+  { intros E. rewrite E in Hn. apply Hn. reflexivity. }
+  rewrite (subst_mono r pol _ _ seen IH segs Hs). reflexivity.
+Qed.
+
+(* more fuel never changes an answer that is not "out of fuel" *)
+Theorem expand_rec_mono (r : fenv) pol f f' seen s : f <= f' ->
+  expand_rec r pol f seen s <> Fuel -> expand_rec r pol f' seen s = expand_rec r pol f seen s.
+Proof.
+  intros Hle. induction Hle as [|f' Hle IH]; intros Hn; [reflexivity|].
+  rewrite (expand_rec_step r pol f' seen s); [apply IH, Hn|]. rewrite (IH Hn). exact Hn.
+Qed.
+
+(* hence: every amount of fuel from the model's bound on gives the answer of [expand], which is a proper one *)
+Theorem expand_fuel_irrelevant (r : fenv) pol s f : S (length r) <= f ->
+  expand_rec r pol f [] s = expand r pol s /\ expand r pol s <> Fuel.
+Proof.
+  intros Hf. assert (HT : expand r pol s <> Fuel).
+  { pose proof (expand_total r pol s) as T. intros E. rewrite E in T. exact T. }
+  split; [|exact HT]. unfold expand in *. apply expand_rec_mono; assumption.
+Qed.
